@@ -101,6 +101,7 @@ func (prop) Generate(rng *rand.Rand, tier string) []corr.Case {
 		ops := []string{fmt.Sprintf("reset %s %s", corr.Hex(root), kvStr)}
 		nOps := 1 + rng.Intn(14)
 		snaps := 0
+		vsnaps := map[string]int{}
 		for j := 0; j < nOps; j++ {
 			p := corr.Hex(viewPrefixes[rng.Intn(len(viewPrefixes))])
 			b := func() string {
@@ -127,15 +128,29 @@ func (prop) Generate(rng *rand.Rand, tier string) []corr.Case {
 			case r < 78:
 				ops = append(ops, fmt.Sprintf("iter %s %s %d %s", p, corr.Hex(genKey(rng, 1)), genLimit(rng), b()))
 			case r < 82:
-				ops = append(ops, "snap")
-				snaps++
+				if rng.Intn(2) == 0 {
+					ops = append(ops, "snap")
+					snaps++
+				} else {
+					ops = append(ops, "vsnap "+p)
+					vsnaps[p]++
+				}
 			case r < 86:
-				ops = append(ops, fmt.Sprintf("restore %d", rng.Intn(snaps+1)))
+				if rng.Intn(2) == 0 {
+					ops = append(ops, fmt.Sprintf("restore %d", rng.Intn(snaps+1)))
+				} else {
+					ops = append(ops, fmt.Sprintf("vrestore %s %d", p, rng.Intn(vsnaps[p]+1)))
+				}
 			case r < 88:
-				ops = append(ops, fmt.Sprintf("delsnap %d", rng.Intn(snaps+1)))
+				if rng.Intn(2) == 0 {
+					ops = append(ops, fmt.Sprintf("delsnap %d", rng.Intn(snaps+1)))
+				} else {
+					ops = append(ops, fmt.Sprintf("vdelsnap %s %d", p, rng.Intn(vsnaps[p]+1)))
+				}
 			case r < 92:
 				ops = append(ops, "commit")
 				snaps = 0
+				vsnaps = map[string]int{}
 				if rng.Intn(2) == 0 {
 					ops = append(ops, "revert")
 				}
@@ -148,6 +163,51 @@ func (prop) Generate(rng *rand.Rand, tier string) []corr.Case {
 		}
 		ops = append(ops, "commit", "revert")
 		cases = append(cases, corr.Case{Ops: ops, Tag: "random"})
+	}
+	// view-snapshot family: snapshots taken, restored and deleted through SEVERAL handles (root and kept prefix
+	// views, each with its own table and ids: equal ids coexist), handles derived BEFORE a restore used after it,
+	// reads and writes through other handles on both sides, then commit and revert
+	for i := 0; i < n/3; i++ {
+		hs := []string{"-", "01", "02", "0101"}
+		keys := []string{"00", "01", "0100", "ff"}
+		ops := []string{"reset - 0100=aa,0201=bb,010100=cc"}
+		// touch every handle first so that it exists before the snapshots are taken
+		for _, h := range hs[1:] {
+			ops = append(ops, "get "+h+" 00")
+		}
+		held := map[string]int{}
+		rw := func() {
+			h, k := hs[rng.Intn(len(hs))], keys[rng.Intn(len(keys))]
+			switch rng.Intn(6) {
+			case 0:
+				ops = append(ops, "get "+h+" "+k)
+			case 1, 2:
+				ops = append(ops, "set "+h+" "+k+" "+corr.Hex(genVal(rng)))
+			case 3:
+				ops = append(ops, "del "+h+" "+k)
+			case 4:
+				ops = append(ops, fmt.Sprintf("range %s - ffff %d %d", h, genLimit(rng), rng.Intn(2)))
+			default:
+				ops = append(ops, fmt.Sprintf("iter %s - %d %d", h, genLimit(rng), rng.Intn(2)))
+			}
+		}
+		for j, m := 0, 4+rng.Intn(10); j < m; j++ {
+			h := hs[rng.Intn(len(hs))]
+			switch r := rng.Intn(10); {
+			case r < 4:
+				rw()
+			case r < 7:
+				ops = append(ops, "vsnap "+h)
+				held[h]++
+			case r < 9:
+				ops = append(ops, fmt.Sprintf("vrestore %s %d", h, rng.Intn(held[h]+1)))
+				rw()
+			default:
+				ops = append(ops, fmt.Sprintf("vdelsnap %s %d", h, rng.Intn(held[h]+1)))
+			}
+		}
+		ops = append(ops, "range - - ffff -1 0", "range 01 - ffff -1 0", "commit", "revert")
+		cases = append(cases, corr.Case{Ops: ops, Tag: "viewsnap"})
 	}
 	// snapshot family: tiny key space, many zero-length values, overlay populated before the
 	// snapshot, writes and deletes on both sides of snapshot / restore, then commit and revert
@@ -216,8 +276,10 @@ type runner struct {
 	eff      map[string][]byte
 	prevBase map[string][]byte
 	refSnaps map[int]map[string][]byte
-	fails    []corr.Fail
-	opIdx    int
+	// snapshots taken through view handles: handle prefix -> id -> reference state
+	refVSnaps map[string]map[int]map[string][]byte
+	fails     []corr.Fail
+	opIdx     int
 	// prefix views derived from r.root and kept alive while r.root is: a view with a prefix of two or more
 	// bytes is derived from the (kept) view of its first byte, as modules derive sub-stores from their store,
 	// so that sibling sub-views of one parent coexist
@@ -344,7 +406,7 @@ func (r *runner) step(op string) string {
 			}
 		}
 		r.eff = copyMap(r.base)
-		r.refSnaps = map[int]map[string][]byte{}
+		r.refSnaps, r.refVSnaps = map[int]map[string][]byte{}, map[string]map[int]map[string][]byte{}
 		r.root = diffdb.New(d, r.rootPfx)
 		r.lastDiff = nil
 		return "ok"
@@ -411,9 +473,53 @@ func (r *runner) step(op string) string {
 		if err != nil {
 			return "err"
 		}
-		r.views = nil // a view keeps the staged store it was derived from; callers derive views after a restore
+		// views derived before the restore stay in use: the overlay is restored in place (fix 5a39fd4)
 		r.eff = snap
 		delete(r.refSnaps, id)
+		return "ok"
+	case "vsnap":
+		// Snapshot through the (kept) view handle of prefix p; every handle has its own table and ids
+		p := corr.UnHex(w[1])
+		if len(p) == 0 {
+			return r.step("snap")
+		}
+		id := r.view(p).Snapshot()
+		if r.refVSnaps == nil {
+			r.refVSnaps = map[string]map[int]map[string][]byte{}
+		}
+		if r.refVSnaps[string(p)] == nil {
+			r.refVSnaps[string(p)] = map[int]map[string][]byte{}
+		}
+		if _, dup := r.refVSnaps[string(p)][id]; dup {
+			r.fail("view-snapshot-id-reused", fmt.Sprintf("%s: id %d is still held through this handle", op, id))
+		}
+		r.refVSnaps[string(p)][id] = copyMap(r.eff)
+		return strconv.Itoa(id)
+	case "vrestore":
+		p, id := corr.UnHex(w[1]), atoi(w[2])
+		if len(p) == 0 {
+			return r.step(fmt.Sprintf("restore %d", id))
+		}
+		err := r.view(p).RestoreSnapshot(id)
+		snap, ok := r.refVSnaps[string(p)][id]
+		if (err == nil) != ok {
+			r.fail("restore-verdict", fmt.Sprintf("%s: err=%v, reference has snapshot=%v", op, err, ok))
+		}
+		if err != nil {
+			return "err"
+		}
+		if ok {
+			r.eff = snap
+			delete(r.refVSnaps[string(p)], id)
+		}
+		return "ok"
+	case "vdelsnap":
+		p, id := corr.UnHex(w[1]), atoi(w[2])
+		if len(p) == 0 {
+			return r.step(fmt.Sprintf("delsnap %d", id))
+		}
+		r.view(p).DeleteSnapshot(id)
+		delete(r.refVSnaps[string(p)], id)
 		return "ok"
 	case "delsnap":
 		id := atoi(w[1])
@@ -433,7 +539,7 @@ func (r *runner) step(op string) string {
 		r.lastDiff = dec
 		r.prevBase = r.base
 		r.base = copyMap(r.eff)
-		r.refSnaps = map[int]map[string][]byte{}
+		r.refSnaps, r.refVSnaps = map[int]map[string][]byte{}, map[string]map[int]map[string][]byte{}
 		dump := r.dumpDB()
 		if dump != dumpMap(r.base) {
 			r.fail("commit-not-final-state", fmt.Sprintf("db %s want %s", dump, dumpMap(r.base)))
@@ -450,7 +556,7 @@ func (r *runner) step(op string) string {
 		r.lastDiff = nil
 		r.base = r.prevBase
 		r.eff = copyMap(r.base)
-		r.refSnaps = map[int]map[string][]byte{}
+		r.refSnaps, r.refVSnaps = map[int]map[string][]byte{}, map[string]map[int]map[string][]byte{}
 		r.root = diffdb.New(r.database, r.rootPfx)
 		dump := r.dumpDB()
 		if dump != dumpMap(r.base) {
@@ -571,6 +677,10 @@ func (prop) Classify(c corr.Case, out []string) string {
 		case "restore":
 			if i < len(out) && out[i] == "ok" {
 				kinds["restore"] = true
+			}
+		case "vrestore":
+			if i < len(out) && out[i] == "ok" {
+				kinds["vrestore"] = true
 			}
 		}
 	}
